@@ -3,6 +3,7 @@ package main
 
 import (
 	"fmt"
+	"strings"
 
 	"github.com/prometheus/common/model"
 
@@ -157,11 +158,47 @@ func githubBody(c *explore.Chooser) *explore.Case {
 	return cs
 }
 
+// orders: what is commented must not depend on the order in which the reports of a run arrive (workers deliver
+// them in any order). Universe: a problem, the same problem seen through a symlink to the same file, another
+// check on the same lines, a problem in a second file; every subset x every arrival order.
+func orders(c *explore.Chooser) *explore.Case {
+	all := universe()
+	twin := all[0]
+	twin.Path.Name = strings.TrimSuffix(twin.Path.Name, "a.yml") + "symlink.yml"
+	u := []reporter.Report{all[0], twin, all[2], all[3]}
+	mask := 1 + c.Free(1<<len(u)-1, "reports")
+	showDups := c.Free(2, "showDuplicates") == 1
+	var sel []reporter.Report
+	for i, r := range u {
+		if mask&(1<<i) != 0 {
+			sel = append(sel, r)
+		}
+	}
+	// a permutation of sel by repeated choice
+	rest := append([]reporter.Report(nil), sel...)
+	var perm []reporter.Report
+	var order []int
+	for len(rest) > 0 {
+		k := c.Free(len(rest), fmt.Sprintf("next%d", len(perm)))
+		perm = append(perm, rest[k])
+		order = append(order, k)
+		rest = append(rest[:k], rest[k+1:]...)
+	}
+	ref := fmt.Sprint(reporter.VerifPendingFor(sel, showDups))
+	got := fmt.Sprint(reporter.VerifPendingFor(perm, showDups))
+	input := map[string]any{"reports_mask": mask, "arrival_order": order, "showDuplicates": showDups}
+	cs := &explore.Case{Input: input, Key: fmt.Sprint(mask, order, showDups), Outcome: "orders"}
+	if ref != got {
+		cs.Violate("orders: comments depend on the arrival order of the reports", fmt.Sprintf("reports arriving in order %v give comments\n%s\nin the canonical order they give\n%s", order, got, ref), input)
+	}
+	return cs
+}
+
 func main() {
 	reporter.VerifTick = explore.Heartbeat
 	explore.Main(&explore.Config{
 		Property: "C17", Level: "model_checking",
-		Rule: "for each parameter cell (maxComments in {1,2,50} x reporter can/cannot delete x showDuplicates) a breadth-first search to closure over comment-store states: events run(R) for all 32 subsets R of each of two 5-problem universes drawn from (two problems of one check on the same lines, a third with the same summary but other details, another check on those lines, a second file, the same problem on another rule), initial stores {empty, stale pint comment, comment already equal to a pending one, both}; every transition calls the real reporter.Submit on a store whose equality / budget / deletion rules are the real GitLab and GitHub methods; budget, no-duplicate, coverage, stale-removal, idempotence and convergence invariants on every transition; platform layer: the same search through the real GitLabReporter (List/Create/Delete/Summary over HTTP) against a stateful fake of the merge-request discussions API, 3-problem universe (4 at thorough), maxComments in {1,50} x showDuplicates, initial stores {empty, stale pint thread, thread equal to a pending comment, another user's comment with the same text, stale thread with a reply + a general comment}, environment events reply(thread) and system-note(thread) on pint's threads, plus foreign-discussion-untouched and API-use invariants; and through the real GithubReporter (Destinations/List/Create/IsEqual with its line fixing/Summary) against a stateful fake of the review-comments API: 5-problem universe incl. a problem on an unmodified line and (partial patch) one anchored on the old side of the diff, patch of the first file in {all lines added, only lines 4-5 modified}, maxComments in {1,50} x showDuplicates, initial stores {empty, somebody else's comment, a comment equal to a pending one}",
+		Rule: "for each parameter cell (maxComments in {1,2,50} x reporter can/cannot delete x showDuplicates) a breadth-first search to closure over comment-store states: events run(R) for all 32 subsets R of each of two 5-problem universes drawn from (two problems of one check on the same lines, a third with the same summary but other details, another check on those lines, a second file, the same problem on another rule), initial stores {empty, stale pint comment, comment already equal to a pending one, both}; every transition calls the real reporter.Submit on a store whose equality / budget / deletion rules are the real GitLab and GitHub methods; budget, no-duplicate, coverage, stale-removal, idempotence and convergence invariants on every transition; platform layer: the same search through the real GitLabReporter (List/Create/Delete/Summary over HTTP) against a stateful fake of the merge-request discussions API, 3-problem universe (4 at thorough), maxComments in {1,50} x showDuplicates, initial stores {empty, stale pint thread, thread equal to a pending comment, another user's comment with the same text, stale thread with a reply + a general comment}, environment events reply(thread) and system-note(thread) on pint's threads, plus foreign-discussion-untouched and API-use invariants; and through the real GithubReporter (Destinations/List/Create/IsEqual with its line fixing/Summary) against a stateful fake of the review-comments API: 5-problem universe incl. a problem on an unmodified line and (partial patch) one anchored on the old side of the diff, patch of the first file in {all lines added, only lines 4-5 modified}, maxComments in {1,50} x showDuplicates, initial stores {empty, somebody else's comment, a comment equal to a pending one}; space orders: every subset of a 4-report universe (a problem, its twin seen through a symlink, another check, a second file) x every arrival order: the comments must equal those of the canonical order",
 		Assumptions: []string{
 			"cells space: the store is an in-memory Commenter whose List only returns pint's own comments; which comments are pint's own is decided by the platform code, covered by the gitlab space (GitHub's List does not filter by author and cannot delete, so it has no such decision)",
 			"gitlab space: discussions that are not pint's are kept as a set (List skips them, so their multiplicity cannot influence a run); at most one reply and one system note per thread",
@@ -171,6 +208,7 @@ func main() {
 			{Name: "cells", Body: body, Bound: func(string) int { return -1 }},
 			{Name: "gitlab", Body: gitlabBody, Setup: func(t string) { tier = t }, Bound: func(string) int { return -1 }},
 			{Name: "github", Body: githubBody, Bound: func(string) int { return -1 }},
+			{Name: "orders", Body: orders, Bound: func(string) int { return -1 }},
 		},
 		BudgetS: func(t string) int {
 			if t == "thorough" {
